@@ -40,6 +40,21 @@ HAND = [
     ("fn mk() { { let a = 1; { let b = 2; return fn() { let i = 0; while i < 2 { a = a + b; i = i + 1; } { b = b + 1; } a * 100 + b }; } } } let f = mk(); push(__o, f()); push(__o, f());", ["503", "1104"]),
     ("fn mk() { { let acc = 0; return fn(x) { match x { 0 => { acc = acc + 100; }, _ => { acc = acc + x; } } let out = acc; out }; } } let f = mk(); push(__o, f(0)); push(__o, f(3));", ["100", "103"]),
     ("fn mk() { { let n = 5; return fn() { fn() { { n = n + 1; } n } }; } } let g = mk()(); push(__o, g()); push(__o, g());", ["6", "7"]),
+    # a closure that first reads a captured name and then binds the same name itself
+    ("fn mk() { { let x = 1; return fn() { let y = x; let x = 10; x + y }; } } push(__o, mk()());", ["11"]),
+    ("fn mk() { { { let x = 1; return fn() { let y = x; { let x = 10; push(__o, x + y); } x + y }; } } } push(__o, mk()());", ["11", "2"]),
+    ("fn mk() { let x = 1; fn() { let y = x; let x = 10; x + y } } push(__o, mk()());", ["11"]),
+    ("fn mk(x) { { let z = x; return fn() { let a = z; let z = a + 5; let z2 = z; fn() { z2 + z } }; } } push(__o, mk(1)()());", ["12"]),
+    # a parameter that has the name of its own function is the parameter
+    ("fn f(f) { f + 1 } push(__o, f(2));", ["3"]),
+    ("let g = fn(g) { g * 2 }; push(__o, g(4));", ["8"]),
+    ("fn h(h) { fn() { h } } push(__o, h(5)());", ["5"]),
+    ("fn k(a, k, b) { [a, k, b] } push(__o, k(1, 2, 3));", ["[1, 2, 3]"]),
+    ("fn outer() { fn inner(inner) { inner + 100 } inner(1) } push(__o, outer());", ["101"]),
+    # the same name bound twice in one nested block, then used after the block from a later function / block
+    ("let t = \"global\"; { let t = \"first\"; let t = \"second\"; push(__o, t); } fn later() { t } push(__o, later()); { push(__o, t); }", ["\"second\"", "\"global\"", "\"global\""]),
+    ("{ let tmp = 1; let tmp = 2; } fn later() { tmp } later();", "compile_error"),
+    ("fn f() { let a = \"outer\"; { let a = 1; let a = 2; let a = 3; } let g = fn() { a }; g() } push(__o, f());", ["\"outer\""]),
     # the name of an enclosing function, used from a helper closure inside it, is that function
     ("fn f(n) { let g = fn() { f(n - 1) }; if n <= 0 { 0 } else { g() + 1 } } push(__o, f(3));", ["3"]),
     ("fn walk(t) { let go = fn(k) { if k == 0 { 0 } else { 1 + walk(k - 1) } }; go(t) } push(__o, walk(3));", ["3"]),
